@@ -10,7 +10,8 @@ import (
 func genC03() {
 	genC03Ladders()
 	const rel = "pkg/apk/apk/version.go"
-	g := newGen("C03Version", "From Apko Require Import Base.Prelude Base.Regex.\nOpen Scope Z_scope.")
+	g := newGen("C03Version", "From Apko Require Import Base.Prelude Base.Regex.\nOpen Scope Z_scope.\n"+
+		"Inductive so_shape := SoCutAt (sep ins : string) | SoOperatorRun (chars ins : string).")
 	dep := iotaBlock(rel, "versionAny")
 	fd := findFunc(rel, "", "ResolvePackageNameVersionPin")
 	// the switch on the operator sub-match: `matcher := parts[0][3]` today; found by what its tag stands for, not by the local's name
@@ -34,6 +35,9 @@ func genC03() {
 	g.def("matcher_table", "list (string * Z)", "["+strings.Join(items, "; ")+"]", "switch matcher at "+g.pos(node))
 	g.def("matcher_default", "Z", fmt.Sprintf("(%d)", def), "default clause of switch matcher")
 	g.regex("ends_with_release_re", rel, "endsWithReleaseStr")
+	if term, node := soRewriteShape(fd, rel); term != "" {
+		g.def("so_rewrite_shape", "so_shape", term, "how the so: block of ResolvePackageNameVersionPin finds the start of the version, at "+g.pos(node))
+	}
 
 	// satisfies: case versionX: return <expr over c, greater, equal, less>
 	fs := findFunc(rel, "versionDependency", "satisfies")
